@@ -135,7 +135,10 @@ def rule_codes(facts, rep):
             for i in ints:
                 extended[i] = a
             continue
-        ops = arm_update(a["body"])
+        try:
+            ops = arm_update(a["body"])
+        except Unrecognised as ex:
+            ops = [("unreadable", str(ex))]
         for i in ints:
             table[i] = (ops, a)
     rep.check(default_ok, "codes", b["path"], "unknown-codes-ignored", "the catch-all arm is empty", loc(b, m))
